@@ -55,6 +55,9 @@ func (c Command) Byte() byte {
 // ValidateType will check if the supplied string starts with the given command type and return an error if its not.
 func (c Command) ValidateType(data []byte) error {
 	if !c.IsOfType(data) {
+		if len(data) == 0 {
+			return errors.Errorf("Invalid command type. Expected %v, got no data", c)
+		}
 		return errors.Errorf("Invalid command type. Expected %v, got, %v", c, data[0])
 	}
 	return nil
